@@ -108,13 +108,22 @@ class Ctx:
         cfg = cfg or module + ".cfg"
         d = self._specdir("mc")
         args = ["-coverage", "1"] if coverage else []
-        rc, out, dt = self._tlc(d, module, cfg, args, timeout, workers=workers or 16, xss=xss)
-        st = self._stats(out)
-        violated = ("is violated" in out) or ("Temporal properties were violated" in out)
-        errored = (rc != 0 and not violated) or "Parsing or semantic analysis failed" in out or "StackOverflowError" in out
-        open(os.path.join(self.out, "mc-%s.log" % cfg), "w").write(out)
+        # model mutants are expected to be rejected after a handful of states: one worker is enough and avoids the
+        # (rare) TLC exception of other workers racing with the one that reports the counterexample
+        attempts = [1, 1] if expect_violation else [workers or 16]
+        for k, nw in enumerate(attempts):
+            rc, out, dt = self._tlc(d, module, cfg, args, timeout, workers=nw, xss=xss)
+            st = self._stats(out)
+            violated = ("is violated" in out) or ("Temporal properties were violated" in out)
+            errored = (rc != 0 and not violated) or "Parsing or semantic analysis failed" in out or "StackOverflowError" in out
+            open(os.path.join(self.out, "mc-%s.log" % cfg), "w").write(out)
+            if violated or not errored:
+                break
+        if expect_violation and violated:
+            st.setdefault("distinct", 0)
+            st.setdefault("generated", 0)
         if errored or "distinct" not in st:
-            raise Broken("TLC error in %s/%s (see %s)" % (module, cfg, os.path.join(self.out, "mc-%s.log" % cfg)))
+            raise Broken("TLC error in %s/%s (see %s)\n%s" % (module, cfg, os.path.join(self.out, "mc-%s.log" % cfg), "\n".join(out.splitlines()[-12:])))
         rec = dict(module=module, cfg=cfg, wall_s=round(dt, 1), violated=violated, **st)
         if coverage:
             zero = re.findall(r"<(\w+) line[^>]*>: 0:0", out)
